@@ -228,6 +228,7 @@ class C06(Check):
         self.s3(mod)
         self.s45(mod, wname, wfn)
         self.s6(entry)
+        self.s6_module(mod)
         self.s7(mod)
         self.s8(mod, entry)
         self.s10(mod)
@@ -448,6 +449,21 @@ class C06(Check):
         else:
             self.violated("S6", MOD, "fn_to_sympy", "argument-renaming", c, f"`{norm(c)[:70]}` substitutes sequentially: overlapping old/new names are mixed up",
                           witness="f(x, y) = x - y with model_args [y, x] translates to 0")
+
+    def s6_module(self, mod) -> None:
+        """every multi-name substitution anywhere in the translator is simultaneous"""
+        for fname, f in mod.functions.items():
+            for c in walk_no_nested(f):
+                if not (isinstance(c, ast.Call) and isinstance(c.func, ast.Attribute) and c.func.attr == "subs"):
+                    continue
+                if fname == "fn_to_sympy" and any(o.rule == "S6" and o.construct == "argument-renaming" and o.line == getattr(c, "_orig_lineno", c.lineno) for o in self.obs):
+                    continue
+                kw = {k.arg: norm(k.value) for k in c.keywords}
+                if len(c.args) >= 2 or kw.get("simultaneous") == "True":
+                    continue  # a single (old, new) pair cannot interfere with itself
+                self.violated("S6", MOD, fname, f"substitution {norm(c.args[0])[:40] if c.args else ''}", c,
+                              f"`{norm(c)[:80]}` substitutes several names sequentially: when a replacement mentions a name that is replaced later, the result is mixed up",
+                              witness="ratio(a, b) = a/(1+b) called as ratio(b, a) translates to a/(a+1)")
 
     # ---- S7
     def s7(self, mod) -> None:
